@@ -1064,9 +1064,14 @@ evhttp_handle_chunked_read(struct evhttp_request *req, struct evbuffer *buf)
 			ntoread = evutil_strtoll(p, &endp, 16);
 			/* the size may be followed by chunk extensions
 			 * (";name=value"), which a recipient must ignore */
-			error = (*p == '\0' || endp == p ||
-			    (*endp != '\0' && *endp != ' ' && *endp != ';') ||
-			    ntoread < 0);
+			error = (*p == '\0' || endp == p || ntoread < 0);
+			if (!error) {
+				/* blanks are tolerated after the size, but then
+				 * only an extension or the end of the line */
+				while (*endp == ' ' || *endp == '\t')
+					++endp;
+				error = (*endp != '\0' && *endp != ';');
+			}
 			mm_free(p);
 			if (error) {
 				/* could not get chunk size */
